@@ -17,8 +17,9 @@ META = {
     "level": "exploration",
     "technique": "exhaustive enumeration of operation interleavings (event mode) on two live transports under a cooperative scheduler",
     "text": "1-2 channels x stdout/stderr chunk lists with sizes from {1, 5, P-64, P, 70000}: every interleaving of the "
-            "per-(channel,stream) sequences, with a rekey or set_combine_stderr(True) placed at every position, "
-            "compression on/off, reader chunk sizes {1, 7, all}; exit statuses {0, 1, 255, 2^31}. Oracle: bytes read "
+            "per-(channel,stream) sequences, with a rekey or set_combine_stderr(True) placed at every position "
+            "(combining also switched on after the peer's EOF / CLOSE), compression off / zlib@openssh.com / zlib "
+            "(also crossed with the re-exchange positions), reader chunk sizes {1, 7, all}; exit statuses {0, 1, 255, 2^31}. Oracle: bytes read "
             "per channel and stream == bytes written, in order; with combining, stdout is an order-preserving merge of "
             "both origin streams with nothing lost; recv_exit_status() == sent status.",
     "note": "small scope instead of 8 channels x 512 KiB; system runs to quiescence between operations (event mode), "
@@ -44,6 +45,9 @@ def make_body(scn):
         if compress:
             p.tc.use_compression(True)
             p.ts.use_compression(True)
+            if compress == "zlib":
+                # immediate compression instead of the delayed variant use_compression() prefers
+                p.tc._preferred_compression = p.ts._preferred_compression = ("zlib", "none")
         p.up()
         p.ts._channel_counter = 5          # make local and remote channel ids differ
         pairs = []
@@ -66,7 +70,7 @@ def make_body(scn):
             if e_pay:
                 seqs.append([i, "err", e_pay])
         total_ops = sum(len(q[2]) for q in seqs)
-        spos = special[1] if special else None
+        spos = special[1] if special and special[0] != "combine_late" else None
         order = []
         done = 0
         combined = set()
@@ -135,6 +139,16 @@ def make_body(scn):
         for _, sv in pairs:
             sv.shutdown_write()
         s.quiesce()
+        if special and special[0] == "combine_late":
+            # the application switches combining on only after the peer's EOF (or CLOSE) has arrived: what is
+            # buffered on stderr still has to come out of stdout
+            if special[1] == "close":
+                for _, sv in pairs:
+                    sv.close()
+                s.quiesce()
+            for c, _ in pairs:
+                c.set_combine_stderr(True)
+            combined.add(True)
         got = {}
         import socket
         for i, (c, sv) in enumerate(pairs):
@@ -400,6 +414,14 @@ def scenarios(tier):
         for kind in ("rekey", "rekey_s", "combine"):
             for pos in range(nops + 1):
                 out.append(((ch,), (kind, pos), False, 1 << 20, (1,)))
+        # re-exchange x compression (delayed zlib@openssh.com / immediate zlib): both directions restart their
+        # compression state at NEWKEYS
+        for kind in ("rekey", "rekey_s"):
+            for comp in ((True,) if quick else (True, "zlib")):
+                for pos in ((0, nops) if quick else range(nops + 1)):
+                    out.append(((ch,), (kind, pos), comp, 1 << 20, (1,)))
+        for when in ("eof", "close"):
+            out.append(((ch,), ("combine_late", when), False, 1 << 20 if when == "eof" else 7, (1,)))
         for pos in ((0,) if quick else range(nops)):
             out.append(((ch,), ("rekey_race", pos), False, 1 << 20, ()))
     for chs in (two[:1] if quick else two):
@@ -441,6 +463,8 @@ def run_scn(item, acc):
                           {"scn": scn, "why": v[1], "order": list(order), "choices": ex.choices},
                           {"scn": scn, "choices": ex.choices})
     bound = 1 if (scn[1] and scn[1][0] == "rekey_race") else 0
+    if scn[1] and scn[1][0] == "combine_late":
+        pass        # position is symbolic ("eof"/"close"), not an index
     res = explore.explore(body, bound, "delay", cap=6000, on_exec=on_exec, sched_kw={"horizon": S.EPOCH + 300})
     acc.count("interleavings", res.executions)
     acc.count("scenarios")
